@@ -468,11 +468,11 @@ void exec_c12(const Plan& p, Ctx& ctx) {
 Scenario make_c12() {
     Scenario s;
     s.id = "C12"; s.world = "W2"; s.level = "exploration";
-    s.technique = "deterministic simulation: two real Nodes with seeded identity seeds and peer ids handshake through the API and over simulated TCP in both directions, with crash+restart of one side (same or changed seed) and byzantine public values; keys compared whenever both sides report success";
+    s.technique = "deterministic simulation: two real Nodes with seeded identity seeds and peer ids handshake through the API and over simulated TCP in both directions, with crash+restart of one side (same or changed seed) and byzantine public values; keys compared whenever both sides report success; preemptions aimed at the gap after a mutex release place the accept thread's handshake between the tick loop's steps";
     s.real_components = {"Node (perform_handshake, generate_handshake_work, connect_peer, handle_transport_handshake)", "KeyExchange", "KeyManager", "SessionManager"};
     s.stub_components = {"OS: threads -> fibers, sockets -> simulated TCP, clock, entropy"};
     s.assumptions = {"'every pair of private scalars' is sampled (seeded pairs per run), not enumerated"};
-    s.rule = "plan = identity seeds, peer ids, PoW difficulty, network knobs + 2..8 ops (API handshake in either/both directions, wire connect, out-of-range public value via API and wire, crash+restart with same/changed seed, advance across the cooldown, DH agreement on a seeded scalar pair); non-trivial = an out-of-range public value was offered, a node was crashed, or a seed changed; distinct = plan hash";
+    s.rule = "plan = identity seeds, peer ids, PoW difficulty, network knobs + 2..8 ops (API handshake in either/both directions, wire connect, out-of-range public value via API and wire, crash+restart with same/changed seed, advance across the cooldown, DH agreement on a seeded scalar pair); non-trivial = an out-of-range public value was offered, a node was crashed, or a seed changed; distinct = plan hash; in a third of the runs the rotation interval is 5 s and most ops are `race`: both ends handshake, then one re-handshakes the way the node itself does (local handshake + connect) at a seeded offset (+10..-300 ms) from the receiver's tick at which the rotation of that session is due, while mutex releases are followed by long preemptions (rate 2..18 %, up to 300 ms); afterwards both ends must count rotation periods from that handshake, hold equal keys in equal periods, and their transport sessions must use the key they hold";
     s.gen = gen_c12; s.exec = exec_c12; s.kernel_knobs = net_knobs;
     s.quick_runs = 2500; s.thorough_runs = 100000; s.quick_secs = 45; s.thorough_secs = 900;
     return s;
